@@ -189,8 +189,17 @@ def reset_globals():
     A._generate_adapter_name.__defaults__[0][0] = 1
 
 
-def run(args, files, keep=False, stdin=None):
-    """Run cutadapt.cli.main in-process. files: {name: bytes|str}."""
+class RunTimeout(BaseException):
+    pass
+
+
+def _on_alarm(signum, frame):
+    raise RunTimeout()
+
+
+def run(args, files, keep=False, stdin=None, sim=None, timeout=None):
+    """Run cutadapt.cli.main in-process. files: {name: bytes|str}.
+    sim: optional callable(main_callable) -> lib.sim.SimResult that runs main under the schedule simulator."""
     from cutadapt.cli import main
 
     h = _install_logging()
@@ -210,10 +219,29 @@ def run(args, files, keep=False, stdin=None):
     old = (sys.stdout, sys.stderr, sys.stdin)
     sys.stdout, sys.stderr = out, err
     sys.stdin = io.TextIOWrapper(io.BytesIO(stdin or b""))
+    r.sim = None
+    r.timed_out = False
+    if timeout:
+        import signal
+
+        old_handler = signal.signal(signal.SIGALRM, _on_alarm)
+        signal.setitimer(signal.ITIMER_REAL, timeout)
     try:
-        main([str(a) for a in args])
+        if sim is not None:
+            argv = [str(a) for a in args]
+            r.sim = sim(lambda: main(argv))
+            r.exit, r.exc, r.tb = r.sim.exit, r.sim.exc, r.sim.tb
+        else:
+            main([str(a) for a in args])
     except SystemExit as e:
         r.exit = e.code if e.code is not None else 0
+    except RunTimeout:
+        r.timed_out = True
+        r.exit = "timeout"
+        import multiprocessing
+
+        for child in multiprocessing.active_children():
+            child.kill()
     except BaseException as e:  # noqa
         import traceback
 
@@ -221,6 +249,9 @@ def run(args, files, keep=False, stdin=None):
         r.tb = traceback.format_exc()
         r.exit = "crash"
     finally:
+        if timeout:
+            signal.setitimer(signal.ITIMER_REAL, 0)
+            signal.signal(signal.SIGALRM, old_handler)
         sys.stdout, sys.stderr, sys.stdin = old
         os.chdir(cwd)
     r.log = list(h.records)
